@@ -298,7 +298,7 @@ func TestC20Msgs(t *testing.T) {
 		stateKind := rapid.IntRange(0, 5).Draw(t, "state")
 		if stateKind == 4 {
 			// vesting denomination changed by governance (allowed while no pools exist) to whatever validation accepts
-			d := []string{"x", "1a", "a b", "uatom", strings.Repeat("d", 200)}[rapid.IntRange(0, 4).Draw(t, "newDenom")]
+			d := []string{"x", "1a", "a b", "uatom", strings.Repeat("d", 200), "uatom ", " uc4e", "uc4e\n", "\tuatom"}[rapid.IntRange(0, 8).Draw(t, "newDenom")]
 			v.Run(&vestingtypes.MsgUpdateDenomParam{Authority: GovAuthority(), Denom: d})
 		}
 		if stateKind >= 1 {
@@ -393,7 +393,12 @@ func TestC20Queries(t *testing.T) {
 		g.vacc = v.NextFresh()
 		nowS := nsTime(v.NowNs).Unix()
 		makeCVA(v, g.vacc, sdk.NewCoins(sdk.NewInt64Coin(Denom, 100000)), nowS-10, nowS+1000, sdk.NewCoins())
-		stateKind := rapid.IntRange(0, 3).Draw(t, "state")
+		stateKind := rapid.IntRange(0, 4).Draw(t, "state")
+		if stateKind == 4 {
+			// vesting denomination changed by governance (allowed while no pools exist) to whatever validation accepts
+			d := []string{"x", "a b", "uatom", "uatom ", " uc4e", "uc4e\n", "\tuatom"}[rapid.IntRange(0, 6).Draw(t, "newDenom")]
+			v.Run(&vestingtypes.MsgUpdateDenomParam{Authority: GovAuthority(), Denom: d})
+		}
 		if stateKind == 3 {
 			// a governance-installed minter configuration (any valid one; mint denomination possibly one nobody holds yet) and a block time around it
 			mc := GenMinterCfg(t, 4, 40, 30)
